@@ -497,17 +497,17 @@ class CooperativeAwarenessMessage:
         dict
             Position confidence ellipse value.
         """
+        def semi_axis(accuracy: float) -> int:
+            # SemiAxisLength: 1..4093 in 0,01 m, 4094 = outOfRange (> 40,93 m), 0 shall not be used
+            if accuracy * 100 > 4093:
+                return 4094
+            return max(1, int(accuracy * 100))
+
         position_confidence_ellipse = {
-            "semiMajorAxisLength": int(epx * 100),
-            "semiMinorAxisLength": int(epy * 100),
+            "semiMajorAxisLength": semi_axis(max(epx, epy)),
+            "semiMinorAxisLength": semi_axis(min(epx, epy)),
             "semiMajorAxisOrientation": 0,
         }
-        if epy >= epx:
-            position_confidence_ellipse = {
-                "semiMajorAxisLength": int(epy * 100),
-                "semiMinorAxisLength": int(epx * 100),
-                "semiMajorAxisOrientation": 0,
-            }
         return position_confidence_ellipse
 
     # def create_altitude_confidence(self, epv: float) -> str:
